@@ -45,3 +45,10 @@ func VerifC05_StatefulSetFinalizeReleasesWorkload() {
 
 	verifrt.Cover("C05.statefulset.done")
 }
+
+// C01: finalising a release that is NOT promoted (batchPartition still set: continuous release, the BatchRelease
+// removed mid-plan) must leave the partition where it is — clearing it would let every pod update at once
+// (obligation partitionKeptForContinuousRelease of the C05 harness).
+func VerifC01_StatefulSetFinalizeKeepsPartitionUnlessPromoted() {
+	VerifC05_StatefulSetFinalizeReleasesWorkload()
+}
